@@ -306,8 +306,11 @@ def check_queries(run, res):
 def check_queue_order(run, res, want=('C14', 'C15')):
   """dispatch order of a queued chart against the deque/defer model"""
   seen = {}
+  reposts = 0      # postings of an Event object that had been posted before: each allows one more dispatch of it
   for i, ob in enumerate(run.steps):
     k = ob.op[0]
+    if k in ('repost_fifo', 'repost_lifo'):
+      reposts += 1
     if ob.exc is not None:
       res.violate('op-raised', {'op': k, 'exc': ob.exc}, 'op#%d %s raised %s\n%s' % (i, ob.op, ob.exc, ob.tb))
       return
@@ -332,7 +335,7 @@ def check_queue_order(run, res, want=('C14', 'C15')):
       if 'C14' in want and 'C15' not in want:
         for u in got:
           seen[u] = seen.get(u, 0) + 1
-          if seen[u] > 1:
+          if seen[u] > 1 and not reposts:
             res.violate('dispatched-twice', {}, 'event %s was dispatched %d times' % (u, seen[u]))
             return
     if k == 'recall' and p is not None and 'C15' in want:
